@@ -138,6 +138,11 @@ def check_i4(chk, m, K):
                     if cc[0] == "icmp" and ("null",) in (cc[2], cc[3]) and e.res in (cc[2], cc[3]):
                         if (cc[1] == "eq") == bool(taken) or (cc[1] == "ne" and not taken):
                             got_null = True
+            # ... or the queue was just observed empty through the queue's own observer (what receive would have found)
+            if not got_null:
+                facts = fib.queue_empty_facts(p, K)
+                if facts.get("atomic", (None, 0))[0] is True and not rc:
+                    got_null = True
             chk.ob("I4.drain-complete", "handle_atomic_runq %s..ret" % s.lstrip("%"), got_null or s == fn.entry.name and not rc and False,
                    "the drain stops only when messageq_receive returns NULL", p.ret_inst.loc, fn.name)
     chk.expect("I4", "exits of the drain loop", exits, 1)
